@@ -4,6 +4,7 @@ import (
 	"fmt"
 	"math/big"
 	"os"
+	"sort"
 	"strings"
 )
 
@@ -43,6 +44,7 @@ type groundIdx struct {
 	all    []*Term
 	seenE  map[int]bool
 	selIdx map[string][]*Term // array sort -> ground index terms used in selects
+	selAt  map[int][]*Term    // array term -> ground index terms it is read or written at
 	seenS  map[string]bool
 	ufArg  map[string][]*Term // "f|pos" -> ground arguments of uninterpreted function f
 }
@@ -60,6 +62,23 @@ func collectGround(ts []*Term, g *groundIdx) {
 			if !g.seenS[k] {
 				g.seenS[k] = true
 				g.selIdx[t.Args[0].Sort] = append(g.selIdx[t.Args[0].Sort], t.Args[1])
+			}
+		}
+		if t.Op == "app" && (t.Name == "select" || t.Name == "store") && !t.Args[1].open {
+			// the array itself and every array it was built from by stores is accessed at this index
+			for a := t.Args[0]; a != nil; {
+				if !a.open {
+					ka := fmt.Sprintf("@%d|%d", a.id, t.Args[1].id)
+					if !g.seenS[ka] {
+						g.seenS[ka] = true
+						g.selAt[a.id] = append(g.selAt[a.id], t.Args[1])
+					}
+				}
+				if a.Op == "app" && a.Name == "store" {
+					a = a.Args[0]
+				} else {
+					a = nil
+				}
 			}
 		}
 		if t.Op == "app" && !t.open && len(t.Args) > 0 {
@@ -282,7 +301,7 @@ func instantiateFactsMode(asserts []*Term, limit int, mode int) []*Term {
 	for _, a := range asserts {
 		have[a.id] = true
 	}
-	g := &groundIdx{byPath: map[int][]*Term{}, seen: map[[2]int]bool{}, seenE: map[int]bool{}, selIdx: map[string][]*Term{}, seenS: map[string]bool{}, ufArg: map[string][]*Term{}}
+	g := &groundIdx{byPath: map[int][]*Term{}, seen: map[[2]int]bool{}, seenE: map[int]bool{}, selIdx: map[string][]*Term{}, selAt: map[int][]*Term{}, seenS: map[string]bool{}, ufArg: map[string][]*Term{}}
 	added := 0
 	// quantified facts found so far (instances may contain further quantifiers)
 	var qs []guardedQ
@@ -457,7 +476,13 @@ func instantiateFactsMode(asserts []*Term, limit int, mode int) []*Term {
 				// any integer skolem of the goal is a candidate (i/j/k are interchangeable names)
 				var allSk []*Term
 				seenSk := map[int]bool{}
-				for key, l := range skolems {
+				skKeys := make([]string, 0, len(skolems))
+				for key := range skolems {
+					skKeys = append(skKeys, key)
+				}
+				sort.Strings(skKeys)
+				for _, key := range skKeys {
+					l := skolems[key]
 					if strings.HasSuffix(key, "|Int") && key != "@wit" {
 						for _, t := range l {
 							if !seenSk[t.id] {
@@ -480,12 +505,31 @@ func instantiateFactsMode(asserts []*Term, limit int, mode int) []*Term {
 				}
 			}
 			if k.Sort != "Int" {
-				for so := range selectSortsOf(q, k) {
+				ssorts := selectSortsOf(q, k)
+				soKeys := make([]string, 0, len(ssorts))
+				for so := range ssorts {
+					soKeys = append(soKeys, so)
+				}
+				sort.Strings(soKeys)
+				// first the locations at which the very arrays of this fact are read or written (the
+				// per-fact cap must not be used up by locations of other arrays of the same sort)
+				for _, a := range selectArraysOf(q, k) {
+					for _, E := range g.selAt[a.id] {
+						add(E, 1)
+					}
+				}
+				for _, so := range soKeys {
 					for _, E := range g.selIdx[so] {
 						add(E, 1)
 					}
 				}
 				return out
+			}
+			// indices at which the very arrays (maps keyed by integers, sequences) of this fact are accessed
+			for _, a := range selectArraysOf(q, k) {
+				for _, E := range g.selAt[a.id] {
+					add(E, 1)
+				}
 			}
 			for _, bnd := range boundsOf(q, k) {
 				add(bnd, 1)
@@ -770,6 +814,36 @@ func patternsOf(q, k *Term) []idxPattern {
 	findPatterns(q.Args[0], k, &pats)
 	patCache[key] = pats
 	return pats
+}
+
+var selArrCache = map[[2]int][]*Term{}
+
+// selectArraysOf: the closed array terms A for which select(A, k) occurs in the body of q, in order of occurrence.
+func selectArraysOf(q, k *Term) []*Term {
+	key := [2]int{q.id, k.id}
+	if p, ok := selArrCache[key]; ok {
+		return p
+	}
+	var out []*Term
+	seenA := map[int]bool{}
+	seenT := map[int]bool{}
+	var walk func(t *Term)
+	walk = func(t *Term) {
+		if !t.open || seenT[t.id] {
+			return
+		}
+		seenT[t.id] = true
+		if t.Op == "app" && t.Name == "select" && t.Args[1] == k && !t.Args[0].open && !seenA[t.Args[0].id] {
+			seenA[t.Args[0].id] = true
+			out = append(out, t.Args[0])
+		}
+		for _, a := range t.Args {
+			walk(a)
+		}
+	}
+	walk(q.Args[0])
+	selArrCache[key] = out
+	return out
 }
 
 func selectSortsOf(q, k *Term) map[string]bool {
